@@ -67,3 +67,13 @@ META["C05"] = M(
          "index sets, transposes, adjoints; operators returned by lanczos, arnoldi, eig (all paths), svd, matrix functions, inv "
          "of unitary; plus every operator constructed on the way (creation tap) densified by cola itself; each reported "
          "annotation tested on the matrix (symmetry, eigenvalue sign, orthonormality); distinct = canonical structure")
+
+META["C06"] = M(
+    shards={"quick": 16, "thorough": 64}, budget={"quick": 50, "thorough": 800},
+    floors={"quick": {"evals": 4000, "distinct": 600}, "thorough": {"evals": 200000, "distinct": 30000}},
+    required=["inv-product", "solve", "inv-dense", "inv-transpose", "inv-left-product", "auto-switch-solve"],
+    rule="well-conditioned (cond <= 300, by construction and re-checked on the reference) invertible operator trees over every kind "
+         "with an inverse rule and their nestings, with/without PSD/Unitary declarations, real/complex/single/double, right-hand "
+         "sides 1-D and multi-column, algorithm omitted/Auto/LU/Cholesky/CG/GMRES with tolerances 1e-3..1e-10; x = inv(A,alg)@b, "
+         "solve(A,b,alg), inv(A).to_dense(), and on direct paths inv(A).T/.H and b@inv(A) compared with the dense reference under "
+         "the path's own error bound; plus both sides of the 10^6-entry Auto switch (n=999, 1001); distinct = structure+alg+rhs")
